@@ -372,3 +372,152 @@ Definition spec_cmp (op : cmpop) (a b : Z) : bool :=
   match op with
   | CLt => a <? b | CLe => a <=? b | CEq => a =? b | CNe => negb (a =? b) | CGe => b <=? a | CGt => b <? a
   end.
+
+(* ---------------------------------------------------------------- comparisons with a decimal operand
+   crates/glaredb_core/src/functions/scalar/builtin/comparison.rs
+     decimal_bind::<D>(left, right)    (DecimalComparison and DecimalDistinctComparison, D = Decimal64Type | Decimal128Type)
+        if l_meta != r_meta {
+          max_scale = i8::max(l.scale, r.scale)
+          l_int_digits = (l.precision as i8) - l.scale;  r_int_digits likewise          native i8 arithmetic
+          new_prec = (i8::max(l_int_digits, r_int_digits) + max_scale) as u8;  clamped to D::MAX_PRECISION ("Casting may fail at runtime")
+          left  = if l_meta != new_meta { cast(left,  D(new_prec, max_scale)) } else { left }
+          right = if r_meta != new_meta { cast(right, D(new_prec, max_scale)) } else { right }
+        }
+     execute: O::compare(left, right) on the unscaled integers
+   The casts are DecimalToDecimal<D, D> (cast/builtin/to_decimal.rs; the same primitive on both sides): bind computes
+   scale_diff by checked_sub and the factor 10^|scale_diff| by checked_pow on the primitive, cast() is round_val above
+   (here always an upscale: checked_mul, then validate_precision against new_prec).  A NULL passes through a cast.
+   Operands of other types are brought to a decimal (or not) by the signature binder (functions/candidate.rs: the
+   candidate with the highest sum of implicit cast scores; NO_CAST 800, to Float64 181, to Decimal64 141, to
+   Decimal128 140, Int64 -> Decimal64 is not implicit) and DataType::try_generate_cast_datatype (an integer becomes
+   decimal(3|5|10|19, 0) by its width; Decimal64 -> Decimal128 keeps precision and scale):
+     Decimal64 ~ Decimal128                         both compared as Decimal128
+     IntN / UIntN (N <= 32) ~ Decimal_k(p,s)        the integer becomes Decimal_k(3|5|10, 0)
+     Int64 / UInt64 ~ Decimal128(p,s)               the integer becomes Decimal128(19, 0) (a UInt64 of 20 digits fails the cast)
+     Int64 ~ Decimal64(p,s)                         BOTH sides are cast to Float64 (362 beats 280)
+     UInt64 ~ Decimal64(p,s)                        (Decimal64, Decimal64) is chosen, Decimal64(19,0) does not exist: bind error
+     Float64 ~ Decimal_k(p,s)                       the decimal is cast to Float64 *)
+Definition maxprec (kd : dkind) : Z := match kd with D64 => 18 | D128 => 38 end.
+
+(* the common (precision, scale) *)
+Definition dec_bind_meta (m : mode) (kd : dkind) (p1 s1 p2 s2 : Z) : outcome (Z * Z) :=
+  if (p1 =? p2) && (s1 =? s2) then Ok (p1, s1) else
+  let max_scale := Z.max s1 s2 in
+  bind_out (arith_result Native m Signed 8 (p1 - s1)) (fun li =>
+  bind_out (arith_result Native m Signed 8 (p2 - s2)) (fun ri =>
+  bind_out (arith_result Native m Signed 8 (Z.max li ri + max_scale)) (fun sum =>
+  let np := sum mod 2 ^ 8 in
+  Ok (if maxprec kd <? np then maxprec kd else np, max_scale)))).
+
+(* expr::cast of one side to decimal(np, ns) when its meta differs; None = NULL *)
+Definition cast_side (kd : dkind) (p s np ns : Z) (v : option Z) : outcome (option Z) :=
+  if (p =? np) && (s =? ns) then Ok v else
+  bind_out (if in_range Signed 8 (s - ns) then Ok (s - ns) else Err) (fun diff =>
+  bind_out (checked kd (10 ^ Z.abs diff)) (fun amount =>
+  match v with
+  | None => Ok None
+  | Some x => bind_out (round_val kd np diff amount x) (fun y => Ok (Some y))
+  end)).
+
+(* Ok None = SQL NULL *)
+Definition dec_cmp_core (m : mode) (kd : dkind) (p1 s1 : Z) (v1 : option Z) (p2 s2 : Z) (v2 : option Z)
+  : outcome (option comparison) :=
+  bind_out (dec_bind_meta m kd p1 s1 p2 s2) (fun ms =>
+  let '(np, ns) := ms in
+  bind_out (cast_side kd p1 s1 np ns v1) (fun a =>
+  bind_out (cast_side kd p2 s2 np ns v2) (fun b =>
+  Ok (match a, b with Some x, Some y => Some (x ?= y) | _, _ => None end)))).
+
+(* the definition: the order of the rationals v1 / 10^s1 and v2 / 10^s2 *)
+Definition spec_dec_cmp (s1 v1 s2 v2 : Z) : comparison :=
+  let S := Z.max s1 s2 in (v1 * 10 ^ (S - s1)) ?= (v2 * 10 ^ (S - s2)).
+
+(* ---- operands of other types *)
+Inductive cop :=
+| OpDec (kd : dkind) (p s : Z) (v : option Z)
+| OpInt (sg : sgn) (w : Z) (v : option Z)
+| OpF64 (bits : option Z).
+
+(* total order key of a finite Float64 (-0.0 = 0.0) *)
+Definition f64_key (bits : Z) : Z := if bits <? 2 ^ 63 then bits else - (bits - 2 ^ 63).
+Definition f64_cmp (a b : option (option Z)) : outcome (option comparison) :=
+  match a, b with
+  | Some (Some x), Some (Some y) => Ok (Some (f64_key x ?= f64_key y))
+  | Some None, Some _ | Some _, Some None => Ok None
+  | _, _ => Err                                  (* outside the modelled float range: does not occur *)
+  end.
+(* `v as f64` / DecimalToFloat of an optional value; outer None = not representable in the model *)
+Definition int_f64 (v : option Z) : option (option Z) :=
+  match v with None => Some None | Some x => option_map Some (round_q_f64 x 1) end.
+Definition dec_f64 (v : option Z) (s : Z) : option (option Z) :=
+  match v with None => Some None | Some x => option_map Some (dec_to_f64 x s) end.
+
+(* IntToDecimal to decimal(int_meta_prec w, 0): the value itself, validated against the precision *)
+Definition int_as_dec (w : Z) (v : option Z) : outcome (option Z) :=
+  match v with
+  | None => Ok None
+  | Some x => if vprec x (int_meta_prec w) then Ok (Some x) else Err
+  end.
+
+Definition kd_max (a b : dkind) : dkind := match a, b with D64, D64 => D64 | _, _ => D128 end.
+
+(* left ~ right as the binder resolves it; the second component tells whether the operands were swapped back *)
+Definition dec_vs (m : mode) (kd : dkind) (p s : Z) (v : option Z) (r : cop) (flip : bool) : outcome (option comparison) :=
+  let core p1 s1 v1 k p2 s2 v2 :=
+    if flip then dec_cmp_core m k p2 s2 v2 p1 s1 v1 else dec_cmp_core m k p1 s1 v1 p2 s2 v2 in
+  let fl (a b : option (option Z)) := if flip then f64_cmp b a else f64_cmp a b in
+  match r with
+  | OpDec kd2 p2 s2 v2 => core p s v (kd_max kd kd2) p2 s2 v2
+  | OpInt sg w x =>
+    if w <=? 32 then bind_out (int_as_dec w x) (fun y => core p s v kd (int_meta_prec w) 0 y)
+    else match kd with
+         | D128 => bind_out (int_as_dec w x) (fun y => core p s v D128 (int_meta_prec w) 0 y)
+         | D64 => match sg with
+                  | Signed => fl (dec_f64 v s) (int_f64 x)
+                  | Unsigned => Err
+                  end
+         end
+  | OpF64 b => fl (dec_f64 v s) (match b with None => Some None | Some x => Some (Some x) end)
+  end.
+
+Definition impl_cmp_mixed (m : mode) (l r : cop) : outcome (option comparison) :=
+  match l, r with
+  | OpDec kd p s v, _ => dec_vs m kd p s v r false
+  | _, OpDec kd p s v => dec_vs m kd p s v l true
+  | _, _ => Err                                   (* no decimal operand: not this section's subject *)
+  end.
+
+(* the definition for mixed operands: integers and decimals are exact rationals; against a Float64 the decimal is
+   taken as the Float64 nearest to it (SQL: approximate numeric), then the floats are compared *)
+Definition cop_null (o : cop) : bool :=
+  match o with OpDec _ _ _ None | OpInt _ _ None | OpF64 None => true | _ => false end.
+Definition spec_cmp_mixed (l r : cop) : outcome (option comparison) :=
+  if cop_null l || cop_null r then Ok None else
+  match l, r with
+  | OpDec _ _ s1 (Some v1), OpDec _ _ s2 (Some v2) => Ok (Some (spec_dec_cmp s1 v1 s2 v2))
+  | OpDec _ _ s1 (Some v1), OpInt _ _ (Some x) => Ok (Some (spec_dec_cmp s1 v1 0 x))
+  | OpInt _ _ (Some x), OpDec _ _ s2 (Some v2) => Ok (Some (spec_dec_cmp 0 x s2 v2))
+  | OpDec _ _ s1 (Some v1), OpF64 (Some b) =>
+    match round_q_f64 v1 (10 ^ s1) with Some a => Ok (Some (f64_key a ?= f64_key b)) | None => Err end
+  | OpF64 (Some b), OpDec _ _ s2 (Some v2) =>
+    match round_q_f64 v2 (10 ^ s2) with Some a => Ok (Some (f64_key b ?= f64_key a)) | None => Err end
+  | _, _ => Err
+  end.
+
+(* the eight SQL results from the three-way outcome: < <= = <> >= >, IS DISTINCT FROM, IS NOT DISTINCT FROM *)
+Definition cmp_results (c : option comparison) (lnull rnull : bool) : list (option bool) :=
+  let six := match c with
+             | Some Lt => [true; true; false; true; false; false]
+             | Some Eq => [false; true; true; false; true; false]
+             | Some Gt => [false; false; false; true; true; true]
+             | None => []
+             end in
+  let distinct := match c with
+                  | Some Eq => false
+                  | Some _ => true
+                  | None => negb (lnull && rnull)
+                  end in
+  match c with
+  | Some _ => map Some six ++ [Some distinct; Some (negb distinct)]
+  | None => [None; None; None; None; None; None; Some distinct; Some (negb distinct)]
+  end.
